@@ -47,7 +47,7 @@ def spec_programs(wd, tier, res):
     deep = 0 if tier == "quick" else 3
     with open(os.path.join(d, "SyntaxData.tla"), "w") as f:
         f.write("---- MODULE SyntaxData ----\nMaxOps == 2\nMaxOpsDeep == %d\nDeepSyms == %s\nSeed == %d\nNCompose == %d\n====\n"
-                % (deep, to_tla_set(DEEP_SYMS), seed() % 100000, 40 if tier == "quick" else 400))
+                % (deep, to_tla_set(DEEP_SYMS), seed() % 100000, 40 if tier == "quick" else 200))
     # developer knob (mutation experiments only, never set by MANIFEST commands): reuse TLC's output of an identical
     # specification + data module instead of running TLC again
     cache = os.environ.get("VERIF_C15_TLC_CACHE")
@@ -344,8 +344,8 @@ def run(tier, replay=None):
     # ---- (b) trees, (c) compositions ------------------------------------------------------------------
     jobs = []; seen = set()
     deep = [j for j in others if j["family"] == "tree" and j["nops"] > 2]
-    if len(deep) > 6000:
-        keep = set(map(id, rng.sample(deep, 6000)))
+    if len(deep) > 3000:
+        keep = set(map(id, rng.sample(deep, 3000)))
         others = [j for j in others if not (j["family"] == "tree" and j["nops"] > 2 and id(j) not in keep)]
     for n, j in enumerate(others):
         text = sg.program(j["items"])
@@ -429,7 +429,7 @@ def decorate(P, rng):
     return P
 
 def gen_stream(ctx, res, tier, wd, pool, rng, failing):
-    n = 14 if tier == "quick" else 150
+    n = 14 if tier == "quick" else 100
     Ps = gen.programs(seed() * 1000 + 15, n)
     cases = evalcore.tlc_models(Ps, os.path.join(wd, "gen"), res, chunk=50)
     jobs = []
